@@ -72,9 +72,9 @@ def run(pid, tier, seed):
         env = dict(os.environ)
         env["RC_PARAMS"] = "seed=%d max_success=%d max_size=%d" % ((seed * 7919 + w * 104729 + 1) % (2 ** 31), ncases, maxsize)
         fp = os.path.join(root, "fail-%d.txt" % w)
-        procs.append((fp, subprocess.Popen([binary, "rc", "0", "0", fp], stdout=subprocess.PIPE, stderr=subprocess.PIPE, env=env)))
+        procs.append((fp, vc.Proc([binary, "rc", "0", "0", fp], env=env)))
     bfs_fp = os.path.join(root, "fail-bfs.txt")
-    procs.append((bfs_fp, subprocess.Popen([binary, "bfs", str(nkeys), bfs_fp], stdout=subprocess.PIPE, stderr=subprocess.PIPE)))
+    procs.append((bfs_fp, vc.Proc([binary, "bfs", str(nkeys), bfs_fp])))
     tot = {"cases": 0, "ops": 0, "nontrivial": 0, "audits": 0, "replaced": 0, "absent_lookup": 0, "removes_hit": 0,
            "lower_calls": 0, "clears": 0, "recycled": 0}
     per_cmp = {"int": 0, "charp": 0, "voidp": 0, "ptr": 0}
